@@ -221,6 +221,7 @@ func (e histEngine) Decode(b []byte) (any, error) {
 func (e histEngine) Exec(plan any, c *Ctx) *Violation {
 	observeUnknownAPI = true
 	p := plan.(*HistPlan)
+	pokeThisRun = p.Perm%3 == 0
 	var m *cors.Middleware
 	// C08 only: a shadow twin lives through the same history WITHOUT the rejected
 	// calls; a rejected call must leave no trace, not even a latent one that
